@@ -90,6 +90,8 @@ def run_generated(item, tl, mutate=None):
         mutate(ch)
     nb = (L + Tc - 1) // Tc
     shape = (B, L) if B > 1 else (L,)
+    if item.get("nd"):
+        shape = (B,) + tuple(item["nd"])        # (B, C, L/C): the per-item sequence is the flattened trailing part
     obs = []
 
     def rec(clause, st, **kw):
@@ -187,7 +189,7 @@ def replay_generated(item, w):
     nb = (L + Tc - 1) // Tc
     with _disable_current_modes():
         ch = mkch(fading, Tc, k=k, snr=snr, power=0.25 if snr is None else None)
-        x = torch.complex(torch.tensor([w[f"x{i}r"] for i in range(B * L)], dtype=torch.float32), torch.tensor([w[f"x{i}i"] for i in range(B * L)], dtype=torch.float32)).reshape((B, L) if B > 1 else (L,))
+        x = torch.complex(torch.tensor([w[f"x{i}r"] for i in range(B * L)], dtype=torch.float32), torch.tensor([w[f"x{i}i"] for i in range(B * L)], dtype=torch.float32)).reshape(((B,) + tuple(item["nd"])) if item.get("nd") else ((B, L) if B > 1 else (L,)))
         y = with_draws(w["draws"], lambda: ch(x)).reshape(B, L)
         d = w["draws"]
         g1, g2 = d[:B * nb], d[B * nb:2 * B * nb]
@@ -226,7 +228,7 @@ def all_items():
     items = []
     for shape, cplx in (((4,), True), ((3,), False), ((2, 3), True), ((2, 1, 2, 2), False)):
         items.append(dict(type="supplied", shape=shape, complex=cplx, config=f"supplied csi/noise shape={shape} {'complex' if cplx else 'real'}"))
-    L = tier(4, 5)
+    L = tier(4, 6)
     for fading, k in (("rayleigh", None), ("rician", 0.0), ("rician", 2.0), ("rician", 100.0)):
         for Tc in range(1, L + 2):
             for B, snr in ((1, None), (2, None)) + (((1, 10.0),) if TIER == "thorough" else ()):
@@ -237,6 +239,16 @@ def all_items():
                 it = dict(type="generated", fading=fading, k=k, B=B, L=L, Tc=Tc, snr=snr)
                 it["config"] = f"{fading}{'' if k is None else f'(K={k})'} B={B} L={L} Tc={Tc} {'snr=' + str(snr) if snr is not None else 'power=0.25'}"
                 items.append(it)
+    # inputs with more than two dimensions: the per-item sequence is the flattened (C, L/C) part, so coherence times
+    # between the last dimension and the flattened length still split an item into several independent blocks
+    C = 2
+    for B in (1, 2):
+        for Tc in range(L // C, L + 1):
+            if TIER == "quick" and (B, Tc) not in ((1, L // C), (2, L // C + 1), (1, L - 1)):
+                continue
+            it = dict(type="generated", fading="rayleigh", k=None, B=B, L=L, Tc=Tc, snr=None, nd=[C, L // C])
+            it["config"] = f"rayleigh B={B} shape=({B},{C},{L // C}) Tc={Tc} power=0.25"
+            items.append(it)
     items.append(dict(selftest=True, config="selftest"))
     return items
 
@@ -254,7 +266,7 @@ def main():
     items = all_items()
     import kaira.channels.analog as A
     ck.encoded(A.FlatFadingChannel.forward, A.FlatFadingChannel._generate_fading_coefficients, A.FlatFadingChannel._expand_coefficients)
-    ck.bound("inputs", f"sequence length L = {tier(4, 5)}, coherence times 1..L+1 (non-divisors included), batch 1..2, shapes (L,), (B,L), (B,C,H,W) for supplied csi; Rician K in {{0, 2, 100}}; symbolic complex inputs |x| <= 20 and symbolic Gaussian draws")
+    ck.bound("inputs", f"sequence length L = {tier(4, 6)}, coherence times 1..L+1 (non-divisors included), batch 1..2, shapes (L,), (B,L), (B,C,H,W) for supplied csi; Rician K in {{0, 2, 100}}; symbolic complex inputs |x| <= 20 and symbolic Gaussian draws")
     ck.stub("torch.randn / randn_like -> fresh symbolic reals in generation order (coefficients first, then noise), assumed within 8 standard deviations")
     ck.assume("moment lemma: draws are independent with E g = 0, E g^2 = 1 (torch's generator trusted); E|h|^2 and the K ratio are computed from the coefficient polynomial produced by the real code; log-normal shadowing is checked for structure only by the supplied-csi clause (outside: its normalisation)")
     ck.run_items(__name__, "work", items)
